@@ -9,7 +9,9 @@ From Setec Require Import Base.SMap Server.KV Server.Backup Corr.Common.
 Open Scope N_scope.
 
 Inductive case :=
-| Sc (evs : list dbev)                              (* the clients' mutating calls in time order: instant, "a save can
+| Sc (prior : list dbev)                            (* calls of an EARLIER lifetime on the same database file (the handle was
+                                                       dropped and the file reopened with db.Open before the task started) *)
+     (evs : list dbev)                              (* the clients' mutating calls in time order: instant, "a save can
                                                        succeed", call (put / activate / delete-version / delete) *)
      (rs : list N)                                  (* instants of client reads (list, get, info) *)
      (sc : list upl) (c : N)                        (* the store's script, the cancellation instant *)
@@ -17,11 +19,16 @@ Inductive case :=
      (bids : list N)                                (* per request: identifier of the body's bytes (exact comparison) *)
      (exit : option N)                              (* instant the task returned; None = it did not *)
      (final_gen : N) (racing : N)                   (* WriteGen at the end; writes made by the store side *)
-     (final_bid : N).                               (* identifier of the bytes of the live file at the end (0 = never uploaded) *)
+     (final_bid : N)                                (* identifier of the bytes of the live file at the end (0 = never uploaded) *)
+(* the task as started by the real server.New (bucket configured, the context given to New
+   cancelled at c), observed in real time from outside: same observables, except that the
+   instant the task returns cannot be seen - only that no request arrives after c *)
+| ScW (prior evs : list dbev) (rs : list N) (c : N) (ups : list obs_upload) (bids : list N)
+      (final_gen final_bid : N).
 
 (* which calls are writes is the MODEL's verdict: the store model is run over the calls *)
-Definition timeline_of (evs : list dbev) (rs : list N) (sc : list upl) (c : N) : timeline :=
-  {| writes := fst (classify [] evs) ++ map (fun w => (w, false)) rs; script := sc; cancel := c |}.
+Definition timeline_of (prior evs : list dbev) (rs : list N) (sc : list upl) (c : N) : timeline :=
+  {| writes := fst (classify (snd (classify [] prior)) evs) ++ map (fun w => (w, false)) rs; script := sc; cancel := c |}.
 
 Definition EPut (t : N) (ok : bool) (n : name) (v : N) : dbev := (t, ok, KPut n v).
 Definition EAct (t : N) (ok : bool) (n : name) (v : N) : dbev := (t, ok, KSetActive n v).
@@ -39,27 +46,30 @@ Definition obs_of (a : attempt) : obs_upload := (a_t a, a_gen a, a_ok a).
 Definition upload_beq (x y : obs_upload) : bool :=
   let '(t, g, ok) := x in let '(t', g', ok') := y in (t =? t') && (g =? g') && Bool.eqb ok ok'.
 
+Definition check_run (exit_seen : bool) (prior evs : list dbev) (rs : list N) (sc : list upl) (c : N)
+           (ups : list obs_upload) (bids : list N) (ex : option N) (fg racing fbid : N) : bool :=
+  let tl := timeline_of prior evs rs sc c in
+  let okw := ok_writes tl in
+  match backup_run tl with
+  | None => false
+  | Some (its, x) =>
+      list_beq upload_beq (map obs_of (attempts its)) ups
+      && (if exit_seen then option_beq N.eqb (Some x) ex else true)
+      && mon_first ups && mon_rate ups && mon_change 0 ups && mon_snapshot okw racing ups
+      (* two consecutive acknowledged uploads never carry identical bytes *)
+      && Nat.eqb (length bids) (length ups)
+      && mon_bytes None (combine (map (fun u : obs_upload => snd u) ups) bids)
+      (* the generation of THIS lifetime moved exactly once per write (as the store model
+         classifies the calls, continuing from the state the earlier lifetime left) *)
+      && (fg =? 1 + racing + N.of_nat (length okw))
+      (* caught up at the end: when the newest acknowledged backup covers the last generation,
+         it is byte-identical to the live file *)
+      && (if lastok 0 its =? 1 + n_races (attempts its) + N.of_nat (length okw)
+          then last_acked_bid ups bids =? fbid else true)
+  end.
+
 Definition check (cs : case) : bool :=
   match cs with
-  | Sc evs rs sc c ups bids ex fg racing fbid =>
-      let tl := timeline_of evs rs sc c in
-      let okw := ok_writes tl in
-      match backup_run tl with
-      | None => false
-      | Some (its, x) =>
-          list_beq upload_beq (map obs_of (attempts its)) ups
-          && option_beq N.eqb (Some x) ex
-          && mon_first ups && mon_rate ups && mon_change 0 ups && mon_snapshot okw racing ups
-          (* two consecutive acknowledged uploads never carry identical bytes *)
-          && Nat.eqb (length bids) (length ups)
-          && mon_bytes None (combine (map (fun u : obs_upload => snd u) ups) bids)
-          (* the generation moved exactly once per write (as the store model classifies the calls:
-             a de-duplicated put, a no-op activate/delete, a failed save, a read do not advance it;
-             a delete-version, an activate, a delete do) *)
-          && (fg =? 1 + racing + N.of_nat (length okw))
-          (* caught up at the end: when the newest acknowledged backup covers the last generation,
-             it is byte-identical to the live file *)
-          && (if lastok 0 its =? 1 + n_races (attempts its) + N.of_nat (length okw)
-              then last_acked_bid ups bids =? fbid else true)
-      end
+  | Sc prior evs rs sc c ups bids ex fg racing fbid => check_run true prior evs rs sc c ups bids ex fg racing fbid
+  | ScW prior evs rs c ups bids fg fbid => check_run false prior evs rs [] c ups bids None fg 0 fbid
   end.
